@@ -67,6 +67,18 @@ def write_replay(prop, n, payload):
 def do_replay(path):
     data = json.load(open(path))
     prop = data["property"]
+    if data.get("kind") == "structural":
+        import structural
+        for name, holds, detail in structural.CHECKS[prop]():
+            if name == data["obligation"]:
+                if holds:
+                    print("structural obligation %s holds on the current tree" % name)
+                    return 0
+                print("structural obligation %s fails: %s" % (name, detail))
+                print("VIOLATION property=%s replay=%s no-failing-input-found" % (prop, path))
+                return 1
+        print("UNDECIDED: obligation %s no longer generated" % data["obligation"])
+        return 2
     if data.get("kind") == "bounded":
         env = dict(os.environ, VERIF_REPO=REPO, PYTHONPATH=REPO, PYTHONDONTWRITEBYTECODE="1", FIBERTREE_VERIF="1")
         mod = os.path.join(HERE, "bounded", data.get("module", prop) + ".py")
@@ -159,6 +171,17 @@ def main():
                 backends[o["backend"]] = backends.get(o["backend"], 0) + 1
             else:
                 failed_obs.append((r, o))
+    # structural obligations (decided on the AST of the real source, no solver)
+    import structural
+    struct_failed = []
+    if prop in structural.CHECKS:
+        for name, holds, detail in structural.CHECKS[prop]():
+            obligations += 1
+            if holds:
+                discharged += 1
+                backends["ast-scan"] = backends.get("ast-scan", 0) + 1
+            else:
+                struct_failed.append((name, detail))
     per_fn = {}
     for fn in functions:
         per_fn[fn["function"]] = per_fn.get(fn["function"], 0) + fn["obligations"]
@@ -199,6 +222,16 @@ def main():
                                                     part=v["part"], clause=v["clause"], what=v["what"], case=v["case"],
                                                     observed=v["observed"], expected=v["expected"]))
             violations.append(("%s: %s: %s; observed %s expected %s" % (ident, v["what"], json.dumps(v["case"], default=str)[:300], v["observed"][:200], v["expected"][:200]), path, ""))
+    for name, detail in struct_failed:
+        k = known_match(known, prop, "obligation", name)
+        if k is not None:
+            known_lines.append("KNOWN-FINDING: property=%s obligation %s: %s" % (prop, name, k.get("what", "")))
+            continue
+        nrep[0] += 1
+        path = write_replay(prop, nrep[0], dict(property=prop, kind="structural", obligation=name, detail=detail,
+                                                verdict="structural obligation fails on the current source"))
+        suffix = "" if (bres and bres["violations"]) else " no-failing-input-found"
+        violations.append(("structural obligation %s fails: %s" % (name, detail), path, suffix))
     for r, o in failed_obs:
         k = known_match(known, prop, "obligation", o["name"])
         if k is not None:
